@@ -66,10 +66,14 @@ Clause(r, c) ==
     [] c = "C07.history" -> r.op = "open" \/
           (m.decodable /\ model.ok /\ \A f \in Fields : Val(m, f) = Expected(r, f, model.vals[f]))
     [] c = "C07.status" -> r.status = "ok"
+    \* one invocation naming the metafile AND an identical twin of it: either the call is refused and neither changes, or
+    \* both end up the same (every named metafile gets the whole request)
+    [] c = "C07.twin" -> \/ (r.status = "ok" /\ r.twin.same_as_first)
+                         \/ (r.status # "ok" /\ r.twin.unchanged /\ r.twin.first_unchanged)
     [] OTHER -> FALSE
 
 Report(r) == \A k \in DOMAIN r.clauses :
-                IF r.status = "ok" /\ Clause(r, r.clauses[k]) THEN TRUE
+                IF (r.status = "ok" \/ r.clauses[k] = "C07.twin") /\ Clause(r, r.clauses[k]) THEN TRUE
                 ELSE PrintT(<<"FAIL", r.id, r.clauses[k]>>)
 
 NoModel == [ok |-> FALSE, top |-> <<>>, info |-> <<>>, ih1 |-> "", ih2 |-> "", vals |-> <<>>]
